@@ -201,6 +201,8 @@ func (w *pkWorld) do(g int, op *Op) string {
 	})
 }
 
+func (w *pkWorld) state() any { return w }
+
 func (w *pkWorld) observe() string {
 	var b strings.Builder
 	sweep := func(name string, pc *common.PubkeyCache) {
